@@ -3,7 +3,7 @@ from ..core import quiet_stderr
 from ..drivers import fs_drv
 from . import fs_common as fc
 
-PREFIXES = ("C02-", "pub-", "C04-file-outside", "C07-fill-outside")
+PREFIXES = ("C02-", "pub-", "C04-file-outside", "C07-fill-outside", "C09-reader-failed", "C09-reader-differs", "C09-reader-returned")
 
 
 def run(ctx):
@@ -14,12 +14,17 @@ def run(ctx):
     nkills = 0
     with quiet_stderr():
         for i in range(ctx.pick(5, 60)):
-            cc, ops = fs_drv.make_job(rng, ctx.seed * 977 + i)
-            s = fs_drv.stepped(env, drf, cc, ops, "step%d" % i, rng)
+            cc, ops = fs_drv.make_job(rng, ctx.seed * 977 + i, restart=(i % 2 == 1))
+            s = fs_drv.stepped(env, drf, cc, ops, "step%d%s" % (i, "-restart" if i % 2 == 1 else ""), rng)
             scen.append(s)
             n = s["nops"]
-            # a real SIGKILL while the writer is blocked before operation k
-            ks = range(1, n + 1) if (not ctx.quick and i < 10) else sorted(set(rng.sample(range(1, n + 1), min(n, ctx.pick(5, 12)))))
+            # a real SIGKILL while the writer is blocked before operation k: always some inside the creation of the channel
+            # (properties file), right before / after the first finalizing rename, and a random sample of the rest
+            opl = [e for e in s["events"] if e["ev"] == "op"]
+            first_rename = next((e["n"] for e in opl if e["op"] == "rename" and e["cls"] == "tmp"), n)
+            forced = {2, 4, 6, first_rename, min(n, first_rename + 1)}
+            ks = range(1, n + 1) if (not ctx.quick and i < 10) else sorted(
+                {k for k in forced if 1 <= k <= n} | set(rng.sample(range(1, n + 1), min(n, ctx.pick(4, 12)))))
             for k in ks:
                 scen.append(fs_drv.stepped(env, drf, cc, ops, "kill%d@%d" % (i, k), rng, kill_at=k, every=ctx.pick(4, 2)))
                 nkills += 1
